@@ -64,7 +64,7 @@ def _java_cmd(extra_props=()):
     cp = TLC_JAR
     cm = glob.glob('/opt/veriftools/tla/*.jar')
     cp = ':'.join(sorted(set(cm), key=lambda p: (p != TLC_JAR, p)))
-    return ['java', '-XX:+UseParallelGC', '-Xmx6g'] + list(extra_props) + ['-cp', cp, 'tlc2.TLC']
+    return ['java', '-XX:+UseParallelGC', '-Xmx6g', '-Xss256m'] + list(extra_props) + ['-cp', cp, 'tlc2.TLC']
 
 
 def prepare(workdir):
